@@ -70,20 +70,29 @@ class Canon:
             self.dummies[d] = len(self.dummies)
         return self.dummies[d]
 
-    def number_dummies(self, obj) -> None:
-        """Pre-order numbering so that memoisation cannot change the indices."""
+    def number_dummies(self, obj, _seen=None) -> None:
+        """Pre-order numbering so that memoisation cannot change the indices.
+
+        Own traversal (not ``preorder_traversal``/``has``): objects damaged by a faulty
+        round trip may carry non-SymPy values in ``args``.
+        """
+        if _seen is None:
+            _seen = set()
         if isinstance(obj, sp.Basic):
-            if obj.has(sp.Dummy):
-                for node in sp.preorder_traversal(obj):
-                    if isinstance(node, sp.Dummy):
-                        self._dummy_index(node)
+            if id(obj) in _seen:
+                return
+            _seen.add(id(obj))
+            if isinstance(obj, sp.Dummy):
+                self._dummy_index(obj)
+            for arg in obj.args:
+                self.number_dummies(arg, _seen)
         elif isinstance(obj, abc.Mapping):
             for k, v in obj.items():
-                self.number_dummies(k)
-                self.number_dummies(v)
+                self.number_dummies(k, _seen)
+                self.number_dummies(v, _seen)
         elif isinstance(obj, (tuple, list)):
             for x in obj:
-                self.number_dummies(x)
+                self.number_dummies(x, _seen)
 
     def d(self, obj) -> str:
         key = id(obj)
